@@ -389,7 +389,7 @@ func replayOnce(P *Program, r *Result, cand int) (note, suffix string) {
 	sb.WriteString("\tcase bool:\n\t\tfmt.Printf(\"VERIF-RET %s bool %v\\n\", i, x)\n\tcase string:\n\t\tfmt.Printf(\"VERIF-RET %s str %x\\n\", i, x)\n")
 	sb.WriteString("\tcase []byte:\n\t\tif x == nil {\n\t\t\tfmt.Printf(\"VERIF-RET %s bytes nil\\n\", i)\n\t\t} else {\n\t\t\tfmt.Printf(\"VERIF-RET %s bytes %d %d %x\\n\", i, len(x), cap(x), x)\n\t\t}\n")
 	sb.WriteString("\tcase error:\n\t\tfmt.Printf(\"VERIF-RET %s err %q\\n\", i, x.Error())\n\tdefault:\n\t\tfmt.Printf(\"VERIF-RET %s other %T %v\\n\", i, x, x)\n\t}\n}\n\n")
-	sb.WriteString("func verifFuzzSet() [][]byte {\n\tvar out [][]byte\n\tfor _, b := range []byte{0xC3, 0xFF, 0xE2, 0xF0, 0x5C, 0x22, 0x80, 0x00} {\n\t\tfor n := 1; n <= 6; n++ {\n\t\t\tx := make([]byte, n)\n\t\t\tfor i := range x {\n\t\t\t\tx[i] = b\n\t\t\t}\n\t\t\tout = append(out, x)\n\t\t\ty := append([]byte(\"ab\"), x...)\n\t\t\tout = append(out, y)\n\t\t}\n\t}\n\treturn out\n}\n\n")
+	sb.WriteString("func verifFuzzSet() [][]byte {\n\tvar out [][]byte\n\tfor _, b := range []byte{0xC3, 0xFF, 0xE2, 0xF0, 0x5C, 0x22, 0x80, 0x00} {\n\t\tfor n := 1; n <= 6; n++ {\n\t\t\tx := make([]byte, n)\n\t\t\tfor i := range x {\n\t\t\t\tx[i] = b\n\t\t\t}\n\t\t\tout = append(out, x)\n\t\t\ty := append([]byte(\"ab\"), x...)\n\t\t\tout = append(out, y)\n\t\t}\n\t}\n\t// length-prefixed formats: a small element count (little and big endian) in front of too few bytes\n\tfor _, n := range []int{12, 24, 36, 40, 64, 100} {\n\t\tfor _, c := range []byte{1, 3, 5, 9} {\n\t\t\tx := make([]byte, n)\n\t\t\tx[0] = c\n\t\t\tout = append(out, x)\n\t\t\ty := make([]byte, n)\n\t\t\ty[3] = c\n\t\t\tout = append(out, y)\n\t\t\tz := make([]byte, n)\n\t\t\tz[0], z[4] = c, c\n\t\t\tout = append(out, z)\n\t\t}\n\t}\n\treturn out\n}\n\n")
 	sb.WriteString("func TestVerifReplay(t *testing.T) {\n\tverifPanics := 0\n")
 	if fuzzed {
 		sb.WriteString("\tfor _, verifFuzz := range verifFuzzSet() {\n")
